@@ -19,6 +19,10 @@ def main():
     head = subprocess.run(['git', '-C', REPO, 'rev-parse', '--short', 'HEAD'], capture_output=True, text=True).stdout.strip()
     results = {}
     scratch = tempfile.mkdtemp(prefix='seeded-', dir=os.environ.get('TMPDIR', '/tmp'))
+    # private copy of the Lean project (with its build output) so that the extracted modules of the mutated trees
+    # never replace those of /verif/lean
+    lean_copy = os.path.join(scratch, 'lean')
+    subprocess.run(['rsync', '-a', os.path.join(VERIF, 'lean') + '/', lean_copy + '/'], check=True)
     try:
         for n in names:
             prop = n.split('-')[0]
@@ -31,7 +35,7 @@ def main():
                     results[n] = {'outcome': 'patch-does-not-apply', 'repo_head': head}
                     print(n, 'PATCH DOES NOT APPLY', flush=True)
                     continue
-                env = dict(os.environ, VERIF_REPO=wt, VERIF_EVIDENCE_DIR=os.path.join(VERIF, 'build', 'seeded-evidence', n))
+                env = dict(os.environ, VERIF_REPO=wt, VERIF_LEAN_DIR=lean_copy, VERIF_EVIDENCE_DIR=os.path.join(VERIF, 'build', 'seeded-evidence', n))
                 os.makedirs(env['VERIF_EVIDENCE_DIR'], exist_ok=True)
                 p = subprocess.run([os.path.join(VERIF, 'check'), prop, '--tier', 'quick'], cwd=VERIF, env=env,
                                    capture_output=True, text=True)
@@ -52,13 +56,12 @@ def main():
         subprocess.run(['git', '-C', REPO, 'worktree', 'prune'])
     out = os.path.join(VERIF, 'seeded', 'RESULTS.json')
     old = {}
-    if want and os.path.exists(out):
+    key = 'seed%s' % os.environ.get('VERIF_SEED', '0')
+    if os.path.exists(out):
         old = json.load(open(out)).get('results', {})
-    old.update(results)
+    old.setdefault(key, {}).update(results)
     json.dump({'note': 'tools/run_seeded.py: each kept seeded change applied to a scratch worktree of /repo HEAD and '
                        'checked with the quick tier of its property', 'results': old}, open(out, 'w'), indent=1, sort_keys=True)
-    # restore the extracted modules for the real tree
-    subprocess.run([os.path.join(VERIF, 'setup.sh')], cwd=VERIF, capture_output=True)
     missed = [n for n, r in results.items() if r['outcome'] in ('MISSED', 'patch-does-not-apply')]
     print('missed:', missed)
     return 1 if missed else 0
